@@ -62,6 +62,7 @@ type Run struct {
 	replay     json.RawMessage
 	maxSamples int
 	T          *testing.T
+	BudgetS    float64 // wall-clock budget of this shard in seconds (0 = none)
 }
 
 func getenv(k, def string) string {
@@ -93,6 +94,7 @@ func Main(t *testing.T, id string, body func(r *Run)) {
 	r.start = time.Now()
 	if b, _ := strconv.ParseFloat(getenv("VERIF_BUDGET_S", "0"), 64); b > 0 {
 		r.deadline = r.start.Add(time.Duration(b * float64(time.Second)))
+		r.BudgetS = b
 	}
 	if p := os.Getenv("VERIF_REPLAY"); p != "" {
 		raw, err := os.ReadFile(p)
